@@ -576,6 +576,17 @@ func (f *format) unParse() string {
 	return b.String()
 }
 
+// goFormat returns the directive that Go's fmt understands for f: flags, width, precision and format
+// character without the container delimiter (and other flags that only pcore knows)
+func goFormat(f px.Format) string {
+	if pf, ok := f.(*format); ok {
+		nf := *pf
+		nf.leftDelimiter = 0
+		return nf.unParse()
+	}
+	return f.OrigFormat()
+}
+
 func hasDelimOnce(flags string, format string, delim byte) bool {
 	found := false
 	for _, b := range flags {
